@@ -8,6 +8,9 @@ import (
 	"strings"
 	"time"
 
+	"github.com/jsightapi/jsight-api-go-library/core"
+	"github.com/jsightapi/jsight-schema-go-library/fs"
+
 	"verif/internal/doc"
 	"verif/internal/drv"
 	"verif/internal/fw"
@@ -251,6 +254,53 @@ func runC18(c *fw.Ctx) {
 			}})
 	}
 	_ = sort.Strings
+
+	// an option is a value of the public API and may be handed to several projects: a project
+	// that contains none of the kinds banned FOR IT gives exactly the result it gives without the
+	// option, also when the option value has served another project before, together with a
+	// further ban option (every ordered pair of kinds X != Y from the six core kinds)
+	kindDocs := map[string]string{
+		"MACRO": "JSIGHT 0.3\nMACRO @m\n(\n  200 any\n)\nGET /m\n  201 any\n",
+		"PASTE": "JSIGHT 0.3\nGET /m\n  PASTE @m\nMACRO @m\n(\n  200 any\n)\n",
+		"TYPE":  "JSIGHT 0.3\nTYPE @t any\n",
+		"Body":  "JSIGHT 0.3\nPOST /b\n  Request\n    Body any\n  200 any\n",
+		"Path":  "JSIGHT 0.3\nGET /p/{id}\n  Path\n    {\"id\": 1}\n  200 any\n",
+	}
+	runWith := func(text string, oo ...core.Option) string {
+		cc := core.NewJApiCore(fs.NewFile("root.jst", []byte(text)), append([]core.Option{core.WithFixedSeedForRegex()}, oo...)...)
+		if je := cc.ValidateJAPI(); je != nil {
+			return fmt.Sprintf("err %d %s", je.Index(), je.Msg)
+		}
+		b, err := cc.Catalog().ToJson()
+		if err != nil {
+			return "sererr " + err.Error()
+		}
+		return string(b)
+	}
+	core6 := []string{"INCLUDE", "MACRO", "PASTE", "TYPE", "Body", "Path"}
+	for _, x := range core6 {
+		for _, y := range core6 {
+			text, ok := kindDocs[y]
+			if x == y || !ok || !c.Next() {
+				continue
+			}
+			if x == "MACRO" && y == "PASTE" || x == "PASTE" && y == "MACRO" {
+				continue // each of the two documents holds both kinds
+			}
+			c.Count("evaluations", 3)
+			c.Distinct("shared-option|" + x + "|" + y)
+			plain := runWith(text)
+			shared := core.WithBannedDirectives(drv.EnumOf(x))
+			first := runWith(text, shared, core.WithBannedDirectives(drv.EnumOf(y)))
+			if !strings.Contains(first, "not allowed") {
+				c.Violate("ban-not-enforced", "C18:ban:shared-value:"+y, fmt.Sprintf("a project with a %s directive, %s banned by a shared option value and %s by a second option: %s", y, x, y, clipS(first, 160)), map[string]interface{}{"text": text, "banned": []string{x, y}})
+				continue
+			}
+			if again := runWith(text, shared); again != plain {
+				c.Violate("option-changes-unrelated-result", "C18:unrelated:shared-value", fmt.Sprintf("a project without any %s directive, with only %s banned by an option value that served another project (there together with a ban of %s): %s; without the option: %s", x, x, y, clipS(again, 160), clipS(plain, 160)), map[string]interface{}{"text": text, "banned": []string{x}})
+			}
+		}
+	}
 }
 
 func contains(ss []string, x string) bool {
